@@ -794,7 +794,27 @@ class CSemantics:
             if op[0] in ["+", "-"] and lhs.typ.is_pointer:
                 self.ensure_integer(rhs)
                 lhs = self.ensure_no_void_ptr(lhs)
-            rhs = self.coerce(rhs, result_typ)
+                rhs = self.coerce(rhs, result_typ)
+            elif (
+                op != "="
+                and isinstance(lhs.typ, types.BasicType)
+                and isinstance(rhs.typ, types.BasicType)
+            ):
+                # C11 6.5.16.2: E1 op= E2 means E1 = E1 op (E2). The
+                # operation is performed in the type of 'E1 op E2', the
+                # type of the right hand side tells the code generator
+                # which type that is.
+                rhs = self.promote(rhs)
+                lhs_typ = self._promoted_type(lhs.typ)
+                if op in ["<<=", ">>="]:
+                    operation_typ = lhs_typ
+                else:
+                    operation_typ = self.get_common_type(
+                        lhs_typ, rhs.typ, location
+                    )
+                rhs = self.coerce(rhs, operation_typ)
+            else:
+                rhs = self.coerce(rhs, result_typ)
         elif op == ",":
             result_typ = rhs.typ
         elif op == "+":
@@ -1251,15 +1271,23 @@ class CSemantics:
         to int type before performing the operation.
         """
         if expr.typ.is_promotable:
-            # C11 6.3.1.1p2: int if it can represent all values of the
-            # original type, unsigned int otherwise.
-            if (not expr.typ.is_signed) and self.context.sizeof(
-                expr.typ
-            ) >= self.context.sizeof(self.int_type):
-                expr = self.coerce(expr, self.get_type(["unsigned", "int"]))
-            else:
-                expr = self.coerce(expr, self.int_type)
+            expr = self.coerce(expr, self._promoted_type(expr.typ))
         return expr
+
+    def _promoted_type(self, typ):
+        """The type after integer promotion (C11 6.3.1.1p2).
+
+        int if it can represent all values of the original type,
+        unsigned int otherwise.
+        """
+        if typ.is_promotable:
+            if (not typ.is_signed) and self.context.sizeof(
+                typ
+            ) >= self.context.sizeof(self.int_type):
+                return self.get_type(["unsigned", "int"])
+            else:
+                return self.int_type
+        return typ
 
     def equal_types(self, typ1, typ2):
         """Compare two types for equality."""
